@@ -298,7 +298,7 @@ func (sc *SpecCtx) load(l *Loc) Term {
 	t := vc.load(sc.st, l)
 	// closed entry heap (see unop load): references stored in objects that existed at
 	// entry point to objects that existed at entry
-	if h, ok := sc.st.heap[l.Comp]; (!ok || h.S == l.Comp+"!0") && vc.hasRefs(l.Ty) && !strings.Contains(t.S, "q_") && !strings.Contains(t.S, "p!") {
+	if h, ok := sc.st.heap[l.Comp]; (!ok || h.S == l.Comp+"!0") && vc.hasRefs(l.Ty) && !hasFreeBound(t.S) {
 		key := "closed:" + t.S
 		if !vc.uf[key] {
 			vc.uf[key] = true
@@ -509,7 +509,7 @@ func orNil(t types.Type) types.Type {
 func (sc *SpecCtx) index(x *SX, base, idx Val) Val {
 	vc := sc.vc
 	i := vc.toInt(idx)
-	if sc.hp == nil && !strings.Contains(i.S, "q_") && !strings.Contains(i.S, "p!") {
+	if sc.hp == nil && !hasFreeBound(i.S) {
 		// ground compound index: name it so that quantified facts instantiate at it
 		i = vc.nameInt("sx", i)
 	}
@@ -566,7 +566,7 @@ func (sc *SpecCtx) fieldOf(x *SX, base Val, name string) Val {
 		sc.fail(x, "no field "+name+" in "+t.String())
 	}
 	cur := base
-	for _, fi := range path {
+	for k, fi := range path {
 		ct := vc.resolve(cur.Ty)
 		if pt, ok := ct.Underlying().(*types.Pointer); ok {
 			sty := pt.Elem()
@@ -576,7 +576,7 @@ func (sc *SpecCtx) fieldOf(x *SX, base Val, name string) Val {
 				// keep as location so that nested selection stays a path
 				cur = Val{Ty: types.NewPointer(fty), Loc: l}
 				// mark as auto-deref: remember to load if final
-				if fi == path[len(path)-1] {
+				if k == len(path)-1 {
 					return Val{Ty: vc.resolve(fty), T: sc.load(l), Loc: nil}
 				}
 				continue
@@ -811,7 +811,7 @@ func (sc *SpecCtx) call(x *SX) Val {
 			for i, p := range l.Params {
 				a := sc.eval(args[i])
 				a = lsc.coerce(a, lsc.lookupType(p.Type))
-				if strings.Contains(a.T.S, "q_") || strings.Contains(a.T.S, "p!") {
+				if hasFreeBound(a.T.S) {
 					ground = false
 				}
 				lsc.vars[p.Name] = a
